@@ -541,9 +541,9 @@ impl Extensions {
     pub fn with_csp(&mut self, csp: Arc<Csp>) -> &mut Self {
         self.add_package(
             package!(response, request, _host, _, move |csp: Arc<Csp>| {
+                let some_nonce = response.headers().contains_key("csp-nonce");
                 if let Some(rule) = csp.get(request.uri().path()) {
                     let nonce = response.headers().get("csp-nonce");
-                    let some_nonce = nonce.is_some();
                     let header = if some_nonce {
                         rule.0.to_header_nonce(nonce)
                     } else {
@@ -562,9 +562,10 @@ impl Extensions {
                             .headers_mut()
                             .insert("content-security-policy", header);
                     }
-                    if some_nonce {
-                        utils::remove_all_headers(response.headers_mut(), "csp-nonce");
-                    }
+                }
+                // `csp-nonce` is internal; never send it, also when no rule matches the path.
+                if some_nonce {
+                    utils::remove_all_headers(response.headers_mut(), "csp-nonce");
                 }
             }),
             Id::new(128, "Add content security policy header"),
